@@ -465,8 +465,13 @@ func opScan(r *rand.Rand, n int, tier, mix string) {
 			if strings.HasPrefix(v.FileIndent, " ") {
 				// a file starting with a space is ambiguous under space indentation: none generated
 			}
-			txt := printDump(d, v, r.Intn(2) == 0)
-			emitScan(id, []byte(txt), genSched(r, len(txt)), "eof", false, "dump", sexpGoroutines(expGoroutines(d)), "0,0")
+			// the usual preamble of a crash ("panic: ..." and a blank line) half of the time
+			pre := ""
+			if r.Intn(2) == 0 {
+				pre = []string{"panic: boom\n\n", "fatal error: all goroutines are asleep - deadlock!\n\n", "SIGQUIT: quit\nPC=0x45f0a1 m=0 sigcode=0\n\n"}[r.Intn(3)]
+			}
+			txt := pre + printDump(d, v, r.Intn(2) == 0)
+			emitScan(id, []byte(txt), genSched(r, len(txt)), "eof", false, "dump", sexpGoroutines(expGoroutines(d)), fmt.Sprintf("%d,0", len(pre)))
 		case "c08": // race reports with surrounding text
 			d := g.race()
 			for len(d.Creations) == 0 {
